@@ -311,6 +311,9 @@ fn resolve_type_i(world: &World, ty: &syn::Type, self_struct: Option<&str>, subs
                         _ => {}
                     }
                     if let Some(t) = world.aliases.get(&name) { return Ok(t.clone()); }
+                    if !world.structs.contains_key(&name) && !world.enums.contains_key(&name) {
+                        if let Some(t) = world.raw_aliases.get(&name) { return resolve_type_i(world, t, self_struct, subst); }
+                    }
                     named_type(world, &name)
                 }
                 syn::PathArguments::AngleBracketed(ab) => {
